@@ -437,6 +437,31 @@ func (a *Act) intrinsic(name string, fv FuncV, args []Value) (Value, bool) {
 		}
 		return a.callFunc(FuncV{fn: sum}, args), true
 	}
+	if name == "google.golang.org/protobuf/encoding/protojson.Unmarshal" || name == "(google.golang.org/protobuf/encoding/protojson.UnmarshalOptions).Unmarshal" {
+		// the reflection-driven parser is replaced by the harness summary verifPJUnmarshal(j, m, allowPartial, discardUnknown)
+		sum := in.harnessPkg.Func("verifPJUnmarshal")
+		if sum == nil {
+			panic(unsupported("no harness summary for " + name))
+		}
+		if len(args) == 2 {
+			return a.callFunc(FuncV{fn: sum}, []Value{args[0], args[1], False, False}), true
+		}
+		opt, ok := args[0].(StructV)
+		st, ok2 := fv.fn.Signature.Recv().Type().Underlying().(*types.Struct)
+		if !ok || !ok2 {
+			panic(unsupported("protojson.UnmarshalOptions receiver"))
+		}
+		var ap, du Value = False, False
+		for i := 0; i < st.NumFields(); i++ {
+			switch st.Field(i).Name() {
+			case "AllowPartial":
+				ap = opt.f[i]
+			case "DiscardUnknown":
+				du = opt.f[i]
+			}
+		}
+		return a.callFunc(FuncV{fn: sum}, []Value{args[1], args[2], ap, du}), true
+	}
 	if name == "context.WithCancel" {
 		return a.callFunc(FuncV{fn: in.harnessPkg.Func("verifWithCancel")}, args), true
 	}
@@ -553,6 +578,8 @@ func (a *Act) intrinsic(name string, fv FuncV, args []Value) (Value, bool) {
 		return nil, true
 	case "verifFlag":
 		return BoolC(in.flags[argStr(args[0])]), true
+	case "verifSymbolic":
+		return True, true
 	case "verifCase":
 		// a case split decided per job ("-flag name=3"): constant here, so the SSA paths of the
 		// other cases fold away; without the flag the value is an ordinary symbolic int
